@@ -1268,8 +1268,11 @@ impl<'a> CompilerState<'a> {
                                 var_type = match var_type {
                                     VariableType::Char => VariableType::CharPtr,
                                     _ => {
-                                        return Err(self
-                                            .syntax_error("Type too complex not supported", start))
+                                        // No name has been met yet: locate the error on the pointer sign
+                                        return Err(self.syntax_error(
+                                            "Type too complex not supported",
+                                            p.as_span().start(),
+                                        ));
                                     }
                                 }
                             }
